@@ -62,6 +62,7 @@ let rec rval_of = function
   | L (A "p" :: w :: xs) -> RPrim (zx w, List.map zx xs)
   | L [A "b"; d] -> RPrim (z_of_int 8, bx d)
   | L (A "l" :: ps) -> RPtrs (List.map rval_of ps)
+  | L (A "C" :: es) -> RComp (List.map rval_of es)
   | _ -> failwith "rval"
 
 let field_of = function
@@ -124,12 +125,14 @@ let show_res = function
 let fuel = nat_of_int 200
 let the_schema = ref { s_nodes = []; s_load = Z0 }
 let cfg = ref cfg_fixed
+let stale = ref false      (* -stale: UseRegistry keeps the cached nodes (refuted variant) *)
+let schema_defs : (string, schema) Hashtbl.t = Hashtbl.create 8
 
 let n_of_int n = match z_of_int n with Z0 -> N0 | Zpos p -> Npos p | Zneg _ -> N0
 let show_cache = function None -> "unloaded" | Some b -> hex_of_z b
 
 let () =
-  Array.iter (fun a -> if a = "-prefix" then cfg := cfg_prefix) Sys.argv;
+  Array.iter (fun a -> if a = "-prefix" then cfg := cfg_prefix; if a = "-stale" then stale := true) Sys.argv;
   iter_lines (fun line ->
   match split_ws line with
   | "quote" :: h :: implout :: _ ->
@@ -169,6 +172,41 @@ let () =
   (* hostile messages: the property (C01/C02 for the renderer) is that the implementation returns,
      text or error, without panic or hang and within the output bound; theorem render_total says
      the model never panics or runs out of fuel *)
+  (* standalone String() of a typed list: the model's shown_list for the element type *)
+  | "liststr" :: kind :: rv :: implout :: _ ->
+    let l = rval_of (parse_sx rv) in
+    let ty = ty_of (parse_sx kind) in
+    let r = (match shown_list (float_table "-") !cfg !the_schema fuel [] ty l None with
+      | Ok (t, _) -> Ok (print t) | Err e -> Err e | OutOfFuel -> OutOfFuel) in
+    let back = match parse_text (bytes_of_hex implout) with Some t -> canon t | None -> "unparsable" in
+    print_endline (show_res r ^ " " ^ back)
+  | "schemadef" :: key :: sx :: _ ->
+    Hashtbl.replace schema_defs key (schema_of (parse_sx sx));
+    print_endline ("ok " ^ key)
+  (* histories with UseRegistry:  u:<version>  /  e:<typeid>:<value> ; for every e the model's
+     encoder with the history and (theorem encode_history_independent_reg) a fresh one *)
+  | "reghist" :: script :: _ ->
+    let ff = float_table "-" in
+    let st = ref (enc_init { s_nodes = []; s_load = Z0 }) in
+    let obs = ref [] in
+    let show = function Ok o -> "ok:" ^ hex_of_bytes o | Err _ -> "err" | OutOfFuel -> "outoffuel" in
+    List.iter (fun op ->
+      match String.split_on_char ':' op with
+      | ["u"; k] -> st := use_registry (not !stale) (Hashtbl.find schema_defs k) !st
+      | ["e"; id; rv] ->
+        let v = rval_of (parse_sx rv) in
+        let (r, st') = encode_e ff !cfg fuel (z_of_hex id) v !st in
+        let (rf, _) = encode ff !cfg !st.es_reg fuel (z_of_hex id) v None in
+        st := st';
+        obs := ("used=" ^ show r ^ ",fresh=" ^ show rf) :: !obs
+      | ["l"; id; rv] ->
+        let v = rval_of (parse_sx rv) in
+        let (r, st') = encode_list_e ff !cfg fuel (z_of_hex id) v !st in
+        let (rf, _) = encode_list ff !cfg !st.es_reg fuel (z_of_hex id) v None in
+        st := st';
+        obs := ("used=" ^ show r ^ ",fresh=" ^ show rf) :: !obs
+      | _ -> failwith "reghist op") (String.split_on_char ';' script);
+    print_endline ("ok " ^ String.concat ";" (List.rev !obs))
   | "hostile" :: _ -> print_endline "safe"
   (* recursive types: model rendering, and the implementation's text read back against the
      values the model's walk shows *)
